@@ -79,6 +79,7 @@ func (d c04Doc) String() string {
 }
 
 const c04Coll = "acc"
+const c04Journal = "journal"
 
 // c04Exec runs one operation against a client and renders its outcome. The
 // same function is used for the concurrent run and for the sequential replay.
@@ -176,6 +177,14 @@ func c04Exec(ctx context.Context, client lungo.IClient, op *c04Op) {
 		}
 		var out string
 		err = lungo.WithSession(ctx, sess, func(sc lungo.ISessionContext) error {
+			if op.Key%2 == 0 {
+				// every second transaction first writes another collection, so
+				// that its later steps run in a transaction that is already dirty
+				// (the journal's events are not attributed below)
+				if _, err := client.Database("d").Collection(c04Journal).InsertOne(sc, bson.D{{Key: "_id", Value: op.ID}}); err != nil {
+					return err
+				}
+			}
 			if op.Kind == "rmw" {
 				var d c04Doc
 				err := coll.FindOne(sc, key).Decode(&d)
@@ -447,7 +456,13 @@ func c04CommitOrder(c *fw.Ctx, ctx context.Context, w *world, all []*c04Op, keys
 	for _, op := range all {
 		byID[op.ID] = op
 	}
-	evs := oplogEvents(w.engine.Catalog())[setupEvents:]
+	var evs []bson.D
+	for _, ev := range oplogEvents(w.engine.Catalog())[setupEvents:] {
+		if coll, _ := ref.GetPath(ev, "ns.coll").(string); coll == c04Journal {
+			continue
+		}
+		evs = append(evs, ev)
+	}
 	// attribute events to calls
 	var order []*c04Op
 	firstPos := map[string]int{}
